@@ -32,6 +32,12 @@ func init() {
 					r = append(r, Oblig{Harness: "vh_C03_fold_typed", Globals: map[string]int{"vhKind": k, "vhOp": op}, Unroll: 80, MaxPaths: 2000})
 				}
 			}
+			// untyped operands under a typed context: add sub mul shl neg (indices 0,1,2,4,5 of vhTypedActs)
+			for _, k := range []int{2, 3, 6, 8, 11} {
+				for _, op := range []int{0, 1, 2, 4, 5} {
+					r = append(r, Oblig{Harness: "vh_C03_fold_context", Globals: map[string]int{"vhKind": k, "vhOp": op}, Unroll: 80, MaxPaths: 2000})
+				}
+			}
 			return r
 		},
 		Redirects: map[string]string{"(*" + interpPath + ".node).cfgErrorf": "vmCfgErrorf"},
